@@ -8,8 +8,8 @@ impl<T, M> Iterator for Wrapped<T, M> { type Item = T; fn next(&mut self) -> Opt
 fn main() {
     let col: Vec<String> = vec![String::from("a"), String::from("b"), String::from("c")];
     let it = col.con_iter();
-    drop(col);
-    let c = it.next_chunk(2);
-    let s = it.into_seq_iter(); drop(s);
-    if let Some(x) = c { let _n = x.values.count(); }
+    let mut b = it.buffered_iter(2);
+    let k2 = b.next();
+    let k1 = b.next();
+    if let Some(x) = k2 { let _n = x.values.count(); }
 }
